@@ -459,6 +459,10 @@ func (m *machine) transitions(w *World, fn *ssa.Function) ([]*transition, string
 			case r.Op == "fn":
 				base.to = r.S
 				out = append(out, base)
+			case r.Op == "closure":
+				// a state made on the spot (a state constructor's function literal)
+				base.to = closureKey(r)
+				out = append(out, base)
 			case m.enumStates != nil && r.IsConst():
 				base.to = ""
 				if f := m.enumStates[r.C]; f != nil {
@@ -552,6 +556,8 @@ func (m *machine) transitions(w *World, fn *ssa.Function) ([]*transition, string
 						t.to = ""
 					case hr.Op == "fn":
 						t.to = hr.S
+					case hr.Op == "closure":
+						t.to = closureKey(hr)
 					case hr.Op == "p":
 						t.to = "?"
 						for ai, prm := range h.Params {
@@ -559,6 +565,8 @@ func (m *machine) transitions(w *World, fn *ssa.Function) ([]*transition, string
 								a := stripConv(r.A[ai])
 								if a.Op == "fn" {
 									t.to = a.S
+								} else if a.Op == "closure" {
+									t.to = closureKey(a)
 								} else if a.Op == "nil" {
 									t.to = ""
 								}
@@ -580,6 +588,12 @@ func (m *machine) transitions(w *World, fn *ssa.Function) ([]*transition, string
 		}
 	}
 	return out, ""
+}
+
+// closureKey: the key of the function literal a closure term was made from.
+func closureKey(t *T) string {
+	s := strings.ReplaceAll(t.S, "github.com/bobertlo/gmars/cmd/gmars.", "cmd.")
+	return strings.ReplaceAll(s, "github.com/bobertlo/gmars.", "")
 }
 
 type machineGraph struct {
